@@ -98,6 +98,9 @@ def _work(task):
 def scrub(o):
     """JSON form with memory addresses removed (they differ between two runs of the same trace)."""
     import re
+    if isinstance(o, dict) and '_timing' in o:
+        # details a check declares to depend on free-running peer threads (never the verdict or its key)
+        o = {k: v for k, v in o.items() if k != '_timing'}
     return re.sub(r'0x[0-9a-fA-F]{6,}', '0x', json.dumps(jsonable(o), sort_keys=True, default=repr))
 
 
@@ -184,13 +187,19 @@ def main(argv=None):
                 for _ in range(len(tasks)):
                     results.append(it.next(timeout=max(1.0, limit - (time.time() - t0))))
             except multiprocessing.TimeoutError:
-                pool.terminate()
                 done = [json.dumps(jsonable(r['task']), sort_keys=True) for r in results]
                 left = [t for t in tasks if json.dumps(jsonable(t), sort_keys=True) not in done]
                 print('BROKEN-CHECK: watchdog: %d of %d tasks did not finish within %.0fs (possible livelock '
                       'in the code under test or in the harness); unfinished e.g. %r'
                       % (len(left), len(tasks), limit, left[:2]))
-                return 2
+                sys.stdout.flush()
+                # Pool.terminate() can itself dead-lock on workers stuck in a system call: kill and leave
+                for w in list(getattr(pool, '_pool', [])):
+                    try:
+                        os.kill(w.pid, 9)
+                    except OSError:
+                        pass
+                os._exit(2)
     results.sort(key=lambda r: json.dumps(jsonable(r['task']), sort_keys=True))
     crashes = [r for r in results if 'crash' in r]
     if crashes:
